@@ -49,17 +49,17 @@ theorem axis_indices_inbounds_any_ix {g : ℕ} (hg : 1 ≤ g) {ix : ℤ} (hix : 
   have h := cellOf_eq hg (i := ix + δ) (by omega)
   exact ⟨h, cellOf_lt h⟩
 
-/-- With exact arithmetic: for every axis of `g ≥ 1` cells and every grid coordinate `p ≥ -g + 3/2`
+/-- With exact arithmetic: for every axis of `g ≥ 1` cells and every grid coordinate `p ≥ -g + 1`
 (no upper bound: the wrap loop removes as many periods as needed) the three subscripts of both kernels
 resolve to `(round(p)+δ) mod g`. -/
-theorem axis_indices_inbounds {g : ℕ} (hg : 1 ≤ g) {p : ℚ} (hp : -(g : ℚ) + 3/2 ≤ p) {δ : ℤ}
+theorem axis_indices_inbounds {g : ℕ} (hg : 1 ≤ g) {p : ℚ} (hp : -(g : ℚ) + 1 ≤ p) {δ : ℤ}
     (hδ : δ = -1 ∨ δ = 0 ∨ δ = 1) :
     cellOf g (rhe p + δ) = .ok ((rhe p + δ) % (g : ℤ)).toNat ∧ ((rhe p + δ) % (g : ℤ)).toNat < g := by
   have h1 : -(g : ℤ) + 1 ≤ rhe p := rhe_ge_of_domain hp
   have h := cellOf_eq hg (i := rhe p + δ) (by omega)
   exact ⟨h, cellOf_lt h⟩
 
-/-- the hypothesis `p ≥ -g + 3/2` cannot be dropped: one cell further left the left neighbour is `-g-1` -/
+/-- the hypothesis `p ≥ -g + 1` cannot be dropped: one cell further left the left neighbour is `-g-1` -/
 example : cellOf 3 (rhe (-3) - 1) = .error .oob := by decide +kernel
 example : cellOf 2 (rhe (5/2 + 1/1000) + 1) = .ok 0 := by decide +kernel   -- ix = 3, ixp1 = 4: two periods
 example : cellOf 3 (rhe (-1/2) - 1) = .ok 2 := by decide +kernel
@@ -70,13 +70,13 @@ example : cellOf 3 (rhe (-1/2) - 1) = .ok 2 := by decide +kernel
 sum of the documented piecewise-quadratic kernel over the periodic images of `c`, for any finite set `K` of
 images that contains every image within the kernel's support — in particular it does not depend on how a
 half-cell tie is rounded. -/
-theorem tsc_axis_is_kernel {g : ℕ} (hg : 1 ≤ g) {p : ℚ} (hp : -(g : ℚ) + 3/2 ≤ p) {c : ℕ} (hc : c < g)
+theorem tsc_axis_is_kernel {g : ℕ} (hg : 1 ≤ g) {p : ℚ} (hp : -(g : ℚ) + 1 ≤ p) {c : ℕ} (hc : c < g)
     (K : Finset ℤ) (hK : Covers (3/2) g p c K) :
     ∃ R, resolve g (tscAxis p) = .ok R ∧ R.weightAt c = imageSum Wtsc g p c K :=
   ⟨_, resolve_in_domain hg .tsc hp, tsc_weightAt_eq hg hp hc K hK⟩
 
 /-- **CIC**, with the kernel `max(0, 1 - |u|)`. -/
-theorem cic_axis_is_kernel {g : ℕ} (hg : 1 ≤ g) {p : ℚ} (hp : -(g : ℚ) + 3/2 ≤ p) {c : ℕ} (hc : c < g)
+theorem cic_axis_is_kernel {g : ℕ} (hg : 1 ≤ g) {p : ℚ} (hp : -(g : ℚ) + 1 ≤ p) {c : ℕ} (hc : c < g)
     (K : Finset ℤ) (hK : Covers 1 g p c K) :
     ∃ R, resolve g (cicAxis p) = .ok R ∧ R.weightAt c = imageSum Wcic g p c K :=
   ⟨_, resolve_in_domain hg .cic hp, cic_weightAt_eq hg hp hc K hK⟩
@@ -109,11 +109,11 @@ example : ∃ R, resolve 4 (tscAxis (7/2)) = .ok R ∧
 /-- a configuration the kernels accept: non-zero box, no empty axis -/
 def GoodCfg (c : Cfg) : Prop := c.box ≠ 0 ∧ 1 ≤ c.gx ∧ 1 ≤ c.gy ∧ 1 ≤ c.gz
 
-/-- the particle's grid coordinates are not more than `g - 3/2` cells to the left of the grid
+/-- the particle's grid coordinates are not more than `g - 1` cells to the left of the grid
 (positions in `[0, Box]` with a non-negative offset satisfy this; there is no upper limit) -/
 def InDomain (c : Cfg) (pt : Particle) : Prop :=
-  -(c.gx : ℚ) + 3/2 ≤ gridCoord c pt.x c.gx ∧ -(c.gy : ℚ) + 3/2 ≤ gridCoord c pt.y c.gy ∧
-    (c.gz ≠ 1 → -(c.gz : ℚ) + 3/2 ≤ gridCoord c pt.z c.gz)
+  -(c.gx : ℚ) + 1 ≤ gridCoord c pt.x c.gx ∧ -(c.gy : ℚ) + 1 ≤ gridCoord c pt.y c.gy ∧
+    (c.gz ≠ 1 → -(c.gz : ℚ) + 1 ≤ gridCoord c pt.z c.gz)
 
 theorem particle_no_fault {c : Cfg} (hc : GoodCfg c) {pt : Particle} (hd : InDomain c pt) :
     ∃ ws, particleWrites c pt = .ok ws := by
@@ -233,7 +233,7 @@ def supp : Kind → ℚ
   | .tsc => 3/2
   | .cic => 1
 
-theorem kind_weightAt_eq (k : Kind) {g : ℕ} (hg : 1 ≤ g) {p : ℚ} (hp : -(g : ℚ) + 3/2 ≤ p) {c : ℕ} (hc : c < g)
+theorem kind_weightAt_eq (k : Kind) {g : ℕ} (hg : 1 ≤ g) {p : ℚ} (hp : -(g : ℚ) + 1 ≤ p) {c : ℕ} (hc : c < g)
     (K : Finset ℤ) (hK : Covers (supp k) g p c K) :
     (modAxis g (axisOf k p)).weightAt c = imageSum (kern k) g p c K := by
   cases k
@@ -333,8 +333,8 @@ theorem covers_shift {sup : ℚ} {g : ℕ} {p : ℚ} {c c' : ℕ} {s m q : ℤ}
 /-- **axis_roll_equivariant.**  Moving a particle by `s` whole cells, and by any number `m` of whole periods
 (periodic wrap, also across the boundary and onto `p = g`), moves what it sends to cell `c` to cell
 `(c + s) mod g` — for both kernels, including at half-cell ties where the two positions round differently. -/
-theorem axis_roll_equivariant (k : Kind) {g : ℕ} (hg : 1 ≤ g) {p : ℚ} (hp : -(g : ℚ) + 3/2 ≤ p) (s m : ℤ)
-    (hp' : -(g : ℚ) + 3/2 ≤ p + s - m * g) {c : ℕ} (hc : c < g) :
+theorem axis_roll_equivariant (k : Kind) {g : ℕ} (hg : 1 ≤ g) {p : ℚ} (hp : -(g : ℚ) + 1 ≤ p) (s m : ℤ)
+    (hp' : -(g : ℚ) + 1 ≤ p + s - m * g) {c : ℕ} (hc : c < g) :
     (modAxis g (axisOf k (p + s - m * g))).weightAt (((c : ℤ) + s) % (g : ℤ)).toNat =
       (modAxis g (axisOf k p)).weightAt c := by
   have hg' : (0 : ℤ) < (g : ℤ) := by exact_mod_cast hg
@@ -396,6 +396,293 @@ theorem roll_equivariant {c : Cfg} (hc : GoodCfg c) (h3 : c.gz ≠ 1) {pt pt' : 
   rw [hz', gridCoord_shift c hb hz] at dz' ⊢
   rw [axis_roll_equivariant c.kind hx dx sx mx dx' hi, axis_roll_equivariant c.kind hy dy sy my dy' hj,
     axis_roll_equivariant c.kind hz dz sz mz dz' hk]
+
+/-! ### roll equivariance of a whole deposit -/
+
+/-- `pt'` is `pt` moved by `(sx, sy, sz)` whole cells and wrapped periodically by some whole numbers of boxes -/
+def Shifted (c : Cfg) (sx sy sz : ℤ) (pt pt' : Particle) : Prop :=
+  ∃ mx my mz : ℤ, pt'.x = pt.x + sx * (c.box / c.gx) - mx * c.box ∧
+    pt'.y = pt.y + sy * (c.box / c.gy) - my * c.box ∧
+    pt'.z = pt.z + sz * (c.box / c.gz) - mz * c.box ∧ pt'.w = pt.w
+
+/-- the cell `(i, j, k)` rolled by `(sx, sy, sz)` -/
+def rollCell (c : Cfg) (sx sy sz : ℤ) (i j k : ℕ) : ℕ :=
+  flat c.gy c.gz (((i : ℤ) + sx) % (c.gx : ℤ)).toNat (((j : ℤ) + sy) % (c.gy : ℤ)).toNat
+    (((k : ℤ) + sz) % (c.gz : ℤ)).toNat
+
+theorem rollCell_lt {c : Cfg} (hc : GoodCfg c) (sx sy sz : ℤ) (i j k : ℕ) :
+    rollCell c sx sy sz i j k < c.gx * c.gy * c.gz :=
+  flat_lt (emod_toNat_lt hc.2.1 _) (emod_toNat_lt hc.2.2.1 _) (emod_toNat_lt hc.2.2.2 _)
+
+/-- one particle, both modes (3-d and third axis of one cell): the shifted particle's deposit is the rolled deposit -/
+theorem dep_roll {c : Cfg} (hc : GoodCfg c) {sx sy sz : ℤ} {pt pt' : Particle} (hS : Shifted c sx sy sz pt pt')
+    (hd : InDomain c pt) (hd' : InDomain c pt') {i j k : ℕ} (hi : i < c.gx) (hj : j < c.gy) (hk : k < c.gz) :
+    dep c pt' (rollCell c sx sy sz i j k) = dep c pt (flat c.gy c.gz i j k) := by
+  obtain ⟨mx, my, mz, hx', hy', hz', hw⟩ := hS
+  by_cases h3 : c.gz = 1
+  · -- 2-d mode: nine statements, `izw = 0`
+    obtain ⟨hb, hx, hy, hz⟩ := hc
+    obtain ⟨dx, dy, _⟩ := hd
+    obtain ⟨dx', dy', _⟩ := hd'
+    have hX := resolve_in_domain hx c.kind dx
+    have hY := resolve_in_domain hy c.kind dy
+    have hX' := resolve_in_domain hx c.kind dx'
+    have hY' := resolve_in_domain hy c.kind dy'
+    have hk0 : k = 0 := by omega
+    subst hk0
+    unfold dep rollCell
+    rw [particleWrites_2d hb h3 hX hY, particleWrites_2d hb h3 hX' hY']
+    simp only [h3, Nat.cast_one, Int.emod_one, Int.toNat_zero]
+    rw [contrib_writes9 _ _ _ (resolve_cell_lt hY') (emod_toNat_lt hy _),
+      contrib_writes9 _ _ _ (resolve_cell_lt hY) hj, hw]
+    rw [hx', gridCoord_shift c hb hx] at dx' ⊢
+    rw [hy', gridCoord_shift c hb hy] at dy' ⊢
+    rw [axis_roll_equivariant c.kind hx dx sx mx dx' hi, axis_roll_equivariant c.kind hy dy sy my dy' hj]
+  · obtain ⟨ws, ws', h1, h2, h⟩ := roll_equivariant hc h3 sx sy sz mx my mz hx' hy' hz' hw hd hd'
+    unfold dep rollCell
+    rw [h1, h2]
+    exact h i j k hi hj hk
+
+theorem dep_sum_roll {c : Cfg} (hc : GoodCfg c) {sx sy sz : ℤ} {ps ps' : List Particle}
+    (hS : List.Forall₂ (Shifted c sx sy sz) ps ps') (hd : ∀ pt ∈ ps, InDomain c pt)
+    (hd' : ∀ pt ∈ ps', InDomain c pt) {i j k : ℕ} (hi : i < c.gx) (hj : j < c.gy) (hk : k < c.gz) :
+    (ps'.map (fun pt => dep c pt (rollCell c sx sy sz i j k))).sum =
+      (ps.map (fun pt => dep c pt (flat c.gy c.gz i j k))).sum := by
+  induction hS with
+  | nil => rfl
+  | cons h _ ih =>
+    simp only [List.map_cons, List.sum_cons]
+    rw [dep_roll hc h (hd _ (by simp)) (hd' _ (by simp)) hi hj hk,
+      ih (fun q hq => hd q (by simp [hq])) (fun q hq => hd' q (by simp [hq]))]
+
+/-- **roll_equivariant (particle lists, supplied grids).**  Shift every particle of a list by `(sx, sy, sz)` whole
+cells, each wrapped periodically by its own whole number of boxes.  Then, for TSC and CIC, every shape with
+`gx, gy, gz ≥ 1` (third axis of one cell included) and any two supplied grids, the amount `D` deposited into cell
+`(i, j, k)` by the original list is exactly the amount deposited into the rolled cell by the shifted list. -/
+theorem roll_equivariant_list {c : Cfg} (hc : GoodCfg c) (sx sy sz : ℤ) {ps ps' : List Particle}
+    (hS : List.Forall₂ (Shifted c sx sy sz) ps ps') (hd : ∀ pt ∈ ps, InDomain c pt)
+    (hd' : ∀ pt ∈ ps', InDomain c pt) (grid grid' : List ℚ) :
+    ∃ r r', scatter c grid ps = .ok r ∧ scatter c grid' ps' = .ok r' ∧
+      ∀ i j k, i < c.gx → j < c.gy → k < c.gz → ∃ D : ℚ,
+        r[flat c.gy c.gz i j k]? = grid[flat c.gy c.gz i j k]?.map (· + D) ∧
+        r'[rollCell c sx sy sz i j k]? = grid'[rollCell c sx sy sz i j k]?.map (· + D) := by
+  obtain ⟨r, hr⟩ := scatter_no_fault hc grid hd
+  obtain ⟨r', hr'⟩ := scatter_no_fault hc grid' hd'
+  refine ⟨r, r', hr, hr', ?_⟩
+  intro i j k hi hj hk
+  refine ⟨_, deposit_superposition c grid r ps hr _, ?_⟩
+  rw [deposit_superposition c grid' r' ps' hr', dep_sum_roll hc hS hd hd' hi hj hk]
+
+/-- … in particular a supplied grid that is itself rolled gives the rolled result, and (taking both grids zero)
+the deposit onto a zero grid of the shifted particles is the rolled deposit. -/
+theorem roll_equivariant_grid {c : Cfg} (hc : GoodCfg c) (sx sy sz : ℤ) {ps ps' : List Particle}
+    (hS : List.Forall₂ (Shifted c sx sy sz) ps ps') (hd : ∀ pt ∈ ps, InDomain c pt)
+    (hd' : ∀ pt ∈ ps', InDomain c pt) (grid grid' : List ℚ)
+    (hg : ∀ i j k, i < c.gx → j < c.gy → k < c.gz →
+      grid'[rollCell c sx sy sz i j k]? = grid[flat c.gy c.gz i j k]?) :
+    ∃ r r', scatter c grid ps = .ok r ∧ scatter c grid' ps' = .ok r' ∧
+      ∀ i j k, i < c.gx → j < c.gy → k < c.gz →
+        r'[rollCell c sx sy sz i j k]? = r[flat c.gy c.gz i j k]? := by
+  obtain ⟨r, r', hr, hr', h⟩ := roll_equivariant_list hc sx sy sz hS hd hd' grid grid'
+  refine ⟨r, r', hr, hr', ?_⟩
+  intro i j k hi hj hk
+  obtain ⟨D, h1, h2⟩ := h i j k hi hj hk
+  rw [h1, h2, hg i j k hi hj hk]
+
+theorem roll_equivariant_zero {c : Cfg} (hc : GoodCfg c) (sx sy sz : ℤ) {ps ps' : List Particle}
+    (hS : List.Forall₂ (Shifted c sx sy sz) ps ps') (hd : ∀ pt ∈ ps, InDomain c pt)
+    (hd' : ∀ pt ∈ ps', InDomain c pt) :
+    ∃ r r', scatter c (List.replicate (c.gx * c.gy * c.gz) 0) ps = .ok r ∧
+      scatter c (List.replicate (c.gx * c.gy * c.gz) 0) ps' = .ok r' ∧
+      ∀ i j k, i < c.gx → j < c.gy → k < c.gz →
+        r'[rollCell c sx sy sz i j k]? = r[flat c.gy c.gz i j k]? := by
+  apply roll_equivariant_grid hc sx sy sz hS hd hd'
+  intro i j k hi hj hk
+  rw [List.getElem?_replicate, List.getElem?_replicate, if_pos (rollCell_lt hc sx sy sz i j k),
+    if_pos (flat_lt hi hj hk)]
+
+/-! ### `get_field` end to end -/
+
+/-- the kernel configuration `get_field` uses: cubic mesh; the offset goes into the TSC kernel, not into CIC's -/
+def gfCfg (kind : Kind) (n : ℕ) (box d : ℚ) : Cfg :=
+  match kind with
+  | .tsc => { kind := .tsc, gx := n, gy := n, gz := n, box := box, off := d }
+  | .cic => { kind := .cic, gx := n, gy := n, gz := n, box := box, off := 0 }
+
+/-- the particles `get_field` hands to the kernel: wrapped in place (TSC), or shifted by `d` and **not** wrapped (CIC) -/
+def gfParts (kind : Kind) (box d : ℚ) (parts : List Particle) : List Particle :=
+  match kind with
+  | .tsc => wrapInplace box parts
+  | .cic => if d ≠ 0 then parts.map (shiftParticle d) else parts
+
+theorem getField_eq (kind : Kind) (n : ℕ) (box d : ℚ) (parts : List Particle) :
+    getField kind n box d parts =
+      ((match kind with | .tsc => wrapInplace box parts | .cic => parts),
+       scatter (gfCfg kind n box d) (List.replicate (n * n * n) 0) (gfParts kind box d parts) >>=
+         fun f => normalizeField f parts.length) := by
+  cases kind <;> rfl
+
+/-- the caller's positions after the call: wrapped for TSC, untouched for CIC -/
+theorem get_field_positions (kind : Kind) (n : ℕ) (box d : ℚ) (parts : List Particle) :
+    (getField kind n box d parts).1 = match kind with | .tsc => wrapInplace box parts | .cic => parts := by
+  rw [getField_eq]
+
+theorem gfCfg_dims (kind : Kind) (n : ℕ) (box d : ℚ) :
+    (gfCfg kind n box d).gx = n ∧ (gfCfg kind n box d).gy = n ∧ (gfCfg kind n box d).gz = n ∧
+      (gfCfg kind n box d).box = box ∧ (gfCfg kind n box d).kind = kind := by
+  cases kind <;> exact ⟨rfl, rfl, rfl, rfl, rfl⟩
+
+theorem gfParts_length (kind : Kind) (box d : ℚ) (parts : List Particle) :
+    (gfParts kind box d parts).length = parts.length := by
+  cases kind
+  · simp [gfParts, wrapInplace]
+  · simp only [gfParts]; split_ifs <;> simp
+
+theorem gfParts_weights (kind : Kind) (box d : ℚ) (parts : List Particle) :
+    (gfParts kind box d parts).map (·.w) = parts.map (·.w) := by
+  cases kind
+  · simp [gfParts, wrapInplace, wrapParticle, Function.comp_def]
+  · simp only [gfParts]; split_ifs <;> simp [shiftParticle, Function.comp_def]
+
+theorem gfParts_append (kind : Kind) (box d : ℚ) (ps qs : List Particle) :
+    gfParts kind box d (ps ++ qs) = gfParts kind box d ps ++ gfParts kind box d qs := by
+  cases kind
+  · simp [gfParts, wrapInplace]
+  · simp only [gfParts]; split_ifs <;> simp
+
+theorem sum_map_affine (l : List ℚ) (a : ℚ) : (l.map (fun v => v * a - 1)).sum = l.sum * a - l.length := by
+  induction l with
+  | nil => simp
+  | cons x xs ih => simp only [List.map_cons, List.sum_cons, ih, List.length_cons]; push_cast; ring
+
+theorem normalizeField_ok {f g : List ℚ} {N : ℕ} (h : normalizeField f N = .ok g) :
+    N ≠ 0 ∧ g = f.map (fun v => v * ((f.length : ℚ) / (N : ℚ)) - 1) := by
+  unfold normalizeField at h
+  split_ifs at h with h0
+  cases h
+  exact ⟨h0, rfl⟩
+
+/-- the deposit `get_field` normalises, from a successful call -/
+theorem getField_ok {kind : Kind} {n : ℕ} {box d : ℚ} {parts : List Particle} {f : List ℚ}
+    (h : (getField kind n box d parts).2 = .ok f) :
+    parts.length ≠ 0 ∧ ∃ r, scatter (gfCfg kind n box d) (List.replicate (n * n * n) 0) (gfParts kind box d parts) = .ok r ∧
+      r.length = n * n * n ∧
+      f = r.map (fun v => v * (((n * n * n : ℕ) : ℚ) / (parts.length : ℚ)) - 1) := by
+  rw [getField_eq] at h
+  simp only at h
+  cases hs : scatter (gfCfg kind n box d) (List.replicate (n * n * n) 0) (gfParts kind box d parts) with
+  | error e => rw [hs] at h; cases h
+  | ok r =>
+    rw [hs] at h
+    obtain ⟨hN, hf⟩ := normalizeField_ok (show normalizeField r parts.length = .ok f from h)
+    obtain ⟨d1, d2, d3, _, _⟩ := gfCfg_dims kind n box d
+    have hl := (total_conserved _ _ r _ (by rw [d1, d2, d3]; simp) hs).2
+    rw [List.length_replicate] at hl
+    exact ⟨hN, r, rfl, hl, by rw [hf, hl]⟩
+
+/-- **get_field_spec.**  Whenever `get_field` returns, it had at least one particle and the returned field is,
+cell by cell, `(n³/N) · deposit − 1`, where the deposit of each particle is given by `deposit_is_kernel` at its
+wrapped (TSC, offset inside the kernel) or shifted and unwrapped (CIC) position; its grid total is
+`n³ · (Σw / N) − n³`. -/
+theorem get_field_spec (kind : Kind) (n : ℕ) (box d : ℚ) (parts : List Particle) (f : List ℚ)
+    (h : (getField kind n box d parts).2 = .ok f) :
+    parts.length ≠ 0 ∧ f.length = n * n * n ∧
+      f.sum = ((n * n * n : ℕ) : ℚ) * ((parts.map (·.w)).sum / (parts.length : ℚ)) - ((n * n * n : ℕ) : ℚ) ∧
+      ∀ cell, f[cell]? =
+        if cell < n * n * n then
+          some (((gfParts kind box d parts).map (fun pt => dep (gfCfg kind n box d) pt cell)).sum *
+            (((n * n * n : ℕ) : ℚ) / (parts.length : ℚ)) - 1)
+        else none := by
+  obtain ⟨hN, r, hs, hl, rfl⟩ := getField_ok h
+  obtain ⟨d1, d2, d3, _, _⟩ := gfCfg_dims kind n box d
+  have ht := (total_conserved _ _ r _ (by rw [d1, d2, d3]; simp) hs).1
+  refine ⟨hN, by simp [hl], ?_, ?_⟩
+  · have hN' : (parts.length : ℚ) ≠ 0 := Nat.cast_ne_zero.mpr hN
+    rw [sum_map_affine, ht, gfParts_weights, hl]
+    simp only [List.sum_replicate, smul_zero, zero_add]
+    field_simp
+  · intro cell
+    rw [List.getElem?_map, deposit_superposition _ _ r _ hs cell, List.getElem?_replicate]
+    split_ifs <;> simp
+
+/-- unit weights: the normalised field sums to zero -/
+theorem get_field_total_unit (kind : Kind) (n : ℕ) (box d : ℚ) (parts : List Particle) (f : List ℚ)
+    (h : (getField kind n box d parts).2 = .ok f) (hw : ∀ pt ∈ parts, pt.w = 1) : f.sum = 0 := by
+  obtain ⟨hN, _, hs, _⟩ := get_field_spec kind n box d parts f h
+  have hN' : (parts.length : ℚ) ≠ 0 := Nat.cast_ne_zero.mpr hN
+  have : (parts.map (·.w)).sum = (parts.length : ℚ) := by
+    clear h hs hN hN'
+    induction parts with
+    | nil => simp
+    | cons p ps ih =>
+      simp only [List.map_cons, List.sum_cons, List.length_cons]
+      rw [hw p (by simp), ih (fun q hq => hw q (by simp [hq]))]; push_cast; ring
+  rw [hs, this, div_self hN']; ring
+
+/-- **additivity up to normalisation.**  If `get_field` returns for `ps` and for `qs` it returns for `ps ++ qs`, and
+`(Np + Nq)(f + 1) = Np (f_p + 1) + Nq (f_q + 1)` cell by cell. -/
+theorem get_field_additive (kind : Kind) (n : ℕ) (box d : ℚ) (ps qs : List Particle) (fp fq : List ℚ)
+    (hp : (getField kind n box d ps).2 = .ok fp) (hq : (getField kind n box d qs).2 = .ok fq) :
+    ∃ f, (getField kind n box d (ps ++ qs)).2 = .ok f ∧
+      ∀ (cell : ℕ) (x xp xq : ℚ), f[cell]? = some x → fp[cell]? = some xp → fq[cell]? = some xq →
+        ((ps.length : ℚ) + qs.length) * (x + 1) = ps.length * (xp + 1) + qs.length * (xq + 1) := by
+  obtain ⟨hNp, rp, hsp, hlp, _⟩ := getField_ok hp
+  obtain ⟨hNq, rq, hsq, hlq, _⟩ := getField_ok hq
+  have hsum := additive (gfCfg kind n box d) (List.replicate (n * n * n) 0) rp rq _ _ (by simp) hsp hsq
+  have hex : ∃ f, (getField kind n box d (ps ++ qs)).2 = .ok f := by
+    rw [getField_eq]
+    simp only
+    rw [gfParts_append, hsum]
+    simp only [bind, Except.bind, normalizeField]
+    rw [if_neg (by simp; omega)]
+    exact ⟨_, rfl⟩
+  obtain ⟨f, hf⟩ := hex
+  refine ⟨f, hf, ?_⟩
+  intro cell x xp xq hx hxp hxq
+  obtain ⟨hN, _, _, hc⟩ := get_field_spec kind n box d _ f hf
+  obtain ⟨_, _, _, hcp⟩ := get_field_spec kind n box d _ fp hp
+  obtain ⟨_, _, _, hcq⟩ := get_field_spec kind n box d _ fq hq
+  rw [hc cell] at hx; rw [hcp cell] at hxp; rw [hcq cell] at hxq
+  split_ifs at hx hxp hxq
+  simp only [Option.some.injEq] at hx hxp hxq
+  have hNp' : (ps.length : ℚ) ≠ 0 := Nat.cast_ne_zero.mpr hNp
+  have hNq' : (qs.length : ℚ) ≠ 0 := Nat.cast_ne_zero.mpr hNq
+  have hN' : ((ps ++ qs).length : ℚ) ≠ 0 := Nat.cast_ne_zero.mpr hN
+  rw [gfParts_append, List.map_append, List.sum_append] at hx
+  rw [List.length_append] at hx hN'
+  push_cast at hx hN'
+  rw [← hx, ← hxp, ← hxq]
+  field_simp
+  ring
+
+/-- **roll equivariance of `get_field`.**  If the particles handed to the kernel are shifted by whole cells (with
+periodic wrap), the normalised field is rolled. -/
+theorem get_field_roll (kind : Kind) {n : ℕ} (hn : 1 ≤ n) {box : ℚ} (hb : box ≠ 0) (d : ℚ) (sx sy sz : ℤ)
+    {parts parts' : List Particle} (hN : parts.length ≠ 0)
+    (hS : List.Forall₂ (Shifted (gfCfg kind n box d) sx sy sz) (gfParts kind box d parts) (gfParts kind box d parts'))
+    (hd : ∀ pt ∈ gfParts kind box d parts, InDomain (gfCfg kind n box d) pt)
+    (hd' : ∀ pt ∈ gfParts kind box d parts', InDomain (gfCfg kind n box d) pt) :
+    ∃ f f', (getField kind n box d parts).2 = .ok f ∧ (getField kind n box d parts').2 = .ok f' ∧
+      ∀ i j k, i < n → j < n → k < n →
+        f'[rollCell (gfCfg kind n box d) sx sy sz i j k]? = f[flat n n i j k]? := by
+  obtain ⟨d1, d2, d3, d4, _⟩ := gfCfg_dims kind n box d
+  have hc : GoodCfg (gfCfg kind n box d) := ⟨by rw [d4]; exact hb, by rw [d1]; exact hn, by rw [d2]; exact hn,
+    by rw [d3]; exact hn⟩
+  obtain ⟨r, r', hr, hr', h⟩ := roll_equivariant_zero hc sx sy sz hS hd hd'
+  rw [d1, d2, d3] at hr hr' h
+  have hlen : parts'.length = parts.length := by
+    have := hS.length_eq
+    rw [gfParts_length, gfParts_length] at this
+    exact this.symm
+  refine ⟨_, _, ?_, ?_, ?_⟩
+  · rw [getField_eq]; simp only; rw [hr]
+    simp only [bind, Except.bind, normalizeField, if_neg hN]
+  · rw [getField_eq]; simp only; rw [hr']
+    simp only [bind, Except.bind, normalizeField, if_neg (by rw [hlen]; exact hN)]
+  · intro i j k hi hj hk
+    have hl := (total_conserved _ _ r _ (by rw [d1, d2, d3]; simp) hr).2
+    have hl' := (total_conserved _ _ r' _ (by rw [d1, d2, d3]; simp) hr').2
+    rw [List.getElem?_map, List.getElem?_map, h i j k hi hj hk, hlen, hl, hl']
 
 /-! ### non-vacuity: a concrete anisotropic deposit -/
 
